@@ -36,7 +36,8 @@ def dump (d : DS) : String :=
   let t := (sortK d.s.stakes).foldl (fun acc (p : Nat × Stake) =>
     acc ++ s!" {p.1}:{p.2.rights}:{p.2.used}:{sumV p.2.live}") ""
   let r := (sortK d.crs).foldl (fun acc (p : Nat × CRAcct) =>
-    acc ++ s!" {p.1}:{p.2.total}:{p.2.deposit}:{p.2.penalty}:" ++ (if p.2.gone then "-1" else toString (csCode p.2.st))) ""
+    acc ++ s!" {p.1}:{p.2.total}:{p.2.deposit}:{p.2.penalty}:" ++ (if p.2.gone then "-1" else toString (csCode p.2.st))
+      ++ s!":{p.2.total}") ""   -- last field: the harness's ledger of tracked unspent deposit outputs (= total)
   s!"h={d.h} A{a} S{t} R{r}"
 
 def ints? (s : String) : Option (List Int) :=
